@@ -4,7 +4,8 @@ Unlimited == -1
 Pr(xx, ms, y, mask, tol2, maxit, km) == [x |-> xx, motifs |-> ms, y |-> y, mask |-> mask, tol2 |-> tol2, maxit |-> maxit, km |-> km]
 Xs(l) == { [i \in 1..l |-> (i * k) % 4] : k \in 0..2 }
 MotifSets == { << <<1>> >>, << <<2, 3>> >>, << <<0>>, <<3, 1>> >>, << <<1, 1, 2>> >>, << <<3>>, <<2>> >>,
-               << <<3, 1>>, <<0>> >>, << <<1, 1, 2>>, <<2>>, <<0, 3>> >> }      \* a longer motif listed BEFORE a shorter one
+               << <<3, 1>>, <<0>> >>, << <<1, 1, 2>>, <<2>>, <<0, 3>> >>,
+               << <<3>>, <<3>>, <<2>> >>, << <<0>>, <<3, 1>>, <<0>>, <<2>> >> }      \* a motif listed twice before another one      \* a longer motif listed BEFORE a shorter one
 Ys == { <<0, 0>>, <<3, -2>>, <<-4, 5>> }
 \* tol2 = 4, 8 with a one-output mask: a first improvement d with tol2/2 < d <= tol2, followed by a second improving step, lies between tol * (masked outputs) and tol * (all outputs), so a
 \* loss averaged over ALL outputs instead of the masked ones stops early (round-2 seed C20-5)
